@@ -276,7 +276,7 @@ def _check_typed(acc, lens, sel, vk, tdt, flat):
         cells, shape = list(coords), None
     else:
         cells, shape = [c for r in coords for c in r], [len(r) for r in coords]
-    src = {"float64": [2.5, -0.25, 8.0, 0.0], "uint8": [7, 255, 0, 9], "bool": [True, False, True, True]}[tdt]
+    src = {"float64": [0.7, 1e16, float("inf"), 0.1], "uint8": [7, 255, 0, 9], "bool": [True, False, True, True]}[tdt]
     if vk == "scalar":
         val = src[0]
         vals = [src[0]] * len(cells)
